@@ -22,6 +22,12 @@ let () =
         print_string (if CtorSpec.in_range (clist_of_string cls, clist_of_string name) (List.map z_of_string args) then "1\n" else "0\n")
       | "wfargs" :: cls :: name :: args ->
         print_string (if CtorSpec.wf_args (clist_of_string cls, clist_of_string name) (List.map z_of_string args) then "1\n" else "0\n")
+      | [ "fields"; w ] ->
+        let w = z_of_string w in
+        let rd = Isa.f_rd w and f3 = Isa.f_f3 w and rs1 = Isa.f_rs1 w and rs2 = Isa.f_rs2 w and f7 = Isa.f_f7 w in
+        print_string (String.concat " " (List.map string_of_z
+          [ Isa.f_op w; rd; f3; rs1; rs2; f7; Isa.immf_i rs2 f7; Isa.immf_s rd f7; Isa.immf_b rd f7;
+            Isa.immf_u f3 rs1 rs2 f7; Isa.immf_j f3 rs1 rs2 f7 ]) ^ "\n")
       | _ -> print_string "BAD\n")
     done
   with End_of_file -> ()
